@@ -1,7 +1,6 @@
 """C12 — each action runs isolated and leaves nothing behind
 (IdleInvoker.tla: IdleInvoker at critical-section granularity + the
 Shared(Clean(Root(dir))) build directory creator chain)."""
-import concurrent.futures
 import glob
 import json
 import os
@@ -35,8 +34,8 @@ def _schedules(ctx, n):
     """Behaviours of the specification (tlc -simulate) as schedules."""
     wd = ctx.sub("sim")
     vlib.copy_specs(wd, DEPS + ["IdleInvokerSim.tla", "Sim_IdleInvoker.cfg"])
-    r = vlib.tlc_run(wd, "IdleInvokerSim.tla", "Sim_IdleInvoker.cfg", workers=1, timeout=600,
-                     simulate="num=%d" % n, depth=400, seed=ctx.seed)
+    r = vlib.tlc_run(wd, "IdleInvokerSim.tla", "Sim_IdleInvoker.cfg", workers=1, timeout=1800,
+                     simulate="num=%d" % n, depth=400, seed=ctx.seed, heap="2g")
     if not r.ok:
         raise vlib.Infra("tlc -simulate failed: %s\n%s" % (r.violated or r.error, r.output[-2000:]))
     files = sorted(glob.glob(os.path.join(wd, "sched_*.ndjson")))
@@ -58,18 +57,14 @@ def run(ctx):
     # 1. design: every interleaving of three threads at critical-section
     #    granularity (cleaner ok/fail, cancellation while parked), the creator
     #    chain with two threads and directory faults, liveness with two threads
-    #    (the three TLC runs, the schedule generation and the Go build are
-    #    independent of each other and run side by side)
-    with concurrent.futures.ThreadPoolExecutor(max_workers=5) as ex:
-        jobs = [ex.submit(vlib.design_check, ctx, "IdleInvoker.tla", cfg, [], 900, w)
-                for cfg, w in (("MC_IdleInvoker.cfg", 4), ("MC_IdleInvoker_dirs.cfg", 4), ("MC_IdleInvoker_live.cfg", 2))]
-        jsched = ex.submit(_schedules, ctx, 40 if q else 400)
-        jbuild = ex.submit(vlib.go_build_test, ctx, "idleinv")
-        for j in jobs:
-            j.result()
-        sched, ns = jsched.result()
-        # 2. the real code
-        binary = jbuild.result()
+    #    (does not depend on /repo; VERIF_SKIP_DESIGN=1 skips it for mutation
+    #    sanity runs on a loaded machine)
+    if not os.environ.get("VERIF_SKIP_DESIGN"):
+        for cfg in ("MC_IdleInvoker.cfg", "MC_IdleInvoker_dirs.cfg", "MC_IdleInvoker_live.cfg"):
+            vlib.design_check(ctx, "IdleInvoker.tla", cfg, [], timeout=1800, workers=2, heap="2g")
+    sched, ns = _schedules(ctx, 40 if q else 400)
+    # 2. the real code
+    binary = vlib.go_build_test(ctx, "idleinv")
     traces = []
     meta = {}
     for n in ([2, 3] if q else [2, 3, 4]):
@@ -87,13 +82,18 @@ def run(ctx):
         if not q:
             nt *= 10
         _driver(ctx, binary, "TestRandom", "rand_" + mode, {"VERIF_MODE": mode, "VERIF_N": nt, "VERIF_STEPS": steps}, traces)
+    if not q:
+        # the same schedules with other interleavings inside the wake-up cascades
+        for procs in (1, 2):
+            _driver(ctx, binary, "TestRandom", "rand_direct_p%d" % procs,
+                    {"VERIF_MODE": "direct", "VERIF_N": 200, "VERIF_STEPS": 40, "GOMAXPROCS": procs}, traces)
     if not traces:
         raise vlib.Infra("drivers produced no events:\n" + "\n".join(ctx.driver_failures))
     allp = os.path.join(ctx.sub("all"), "trace.ndjson")
     with open(allp, "w") as f:
         f.write("\n".join(traces) + "\n")
     vlib.validate_traces(ctx, allp, TRACE, TCFG, DEPS, "all", classify=vlib.classify_for(ctx.prop),
-                         timeout=3000, max_failures=6)
+                         timeout=3000, max_failures=3)
     if ctx.driver_failures and not ctx.violations:
         raise vlib.Infra("driver failed and the recorded events show no violation:\n" + "\n".join(ctx.driver_failures))
     return vlib.finish(
